@@ -95,6 +95,12 @@ impl FloatCase {
         }
     }
     pub fn to_json(&self, prop: &str) -> Value {
+        if self.w * self.h > 4096 {
+            if let Data::Seeded { stratum, seed } = &self.data {
+                return json!({"prop": prop, "part": "float", "kind": kind_name(self.kind), "w": self.w, "h": self.h, "cfg": cfg_json(&self.cfg),
+                    "ops": self.ops, "seeded": {"stratum": stratum, "seed": seed.to_string()}});
+            }
+        }
         let px = self.pixels();
         let mut j = float_case_json(self.kind, &px, self.w, self.h, &self.cfg);
         j["prop"] = json!(prop);
@@ -103,6 +109,16 @@ impl FloatCase {
         j
     }
     pub fn from_json(v: &Value) -> Option<FloatCase> {
+        if let Some(sd) = v.get("seeded") {
+            return Some(FloatCase {
+                kind: kind_from_name(v.get("kind")?.as_str()?)?,
+                w: v.get("w")?.as_u64()? as usize,
+                h: v.get("h")?.as_u64()? as usize,
+                cfg: cfg_from_json(v.get("cfg")?)?,
+                data: Data::Seeded { stratum: sd.get("stratum")?.as_u64()? as u8, seed: sd.get("seed")?.as_str()?.parse().ok()? },
+                ops: serde_json::from_value(v.get("ops")?.clone()).ok()?,
+            });
+        }
         let (kind, px, w, h, cfg) = float_case_from_json(v)?;
         let ops: Vec<u8> = serde_json::from_value(v.get("ops")?.clone()).ok()?;
         Some(FloatCase { kind, w, h, cfg, data: Data::Explicit(px), ops })
@@ -122,13 +138,16 @@ pub fn float_kind() -> impl Strategy<Value = Kind> {
 /// float histories on supported configs; image size is a multiple of the subsampling factors
 pub fn float_strategy() -> BoxedStrategy<FloatCase> {
     (supported_cfg(), float_kind(), 1usize..=4, 1usize..=3, 0u8..7, any::<u64>(), prop::collection::vec(any::<u8>(), 1..=4))
-        .prop_map(|(cfg, kind, bw, bh, stratum, seed, ops)| FloatCase {
-            kind,
-            w: bw << cfg.subsampling_x,
-            h: bh << cfg.subsampling_y,
-            cfg,
-            data: Data::Seeded { stratum, seed },
-            ops,
+        .prop_map(|(cfg, kind, bw, bh, stratum, seed, ops)| {
+            // now and then a real-size image: rows wider than 2^15 / 2^16, pixel counts above 2^16
+            let (bw, bh) = match seed % 400 {
+                0 => (32_770usize.div_ceil(1 << cfg.subsampling_x), 1usize),
+                1 => (65_540usize.div_ceil(1 << cfg.subsampling_x), 1),
+                2 => (257, 255),
+                3 => (40_002usize.div_ceil(1 << cfg.subsampling_x), 2),
+                _ => (bw, bh),
+            };
+            FloatCase { kind, w: bw << cfg.subsampling_x, h: bh << cfg.subsampling_y, cfg, data: Data::Seeded { stratum, seed }, ops: if seed % 400 < 4 { ops.into_iter().take(2).collect() } else { ops } }
         })
         .boxed()
 }
